@@ -3,6 +3,7 @@ package props
 import (
 	"github.com/freeconf/yang/val"
 	"fmt"
+	"math"
 	"math/big"
 	"regexp"
 	"sort"
@@ -297,12 +298,13 @@ func c05module(c *core.Ctx, rng *core.Rng, mi int) {
 						Input: map[string]interface{}{"module": y.String(), "leaf": l.name}})
 				}
 			}
-			for _, s := range []string{"", "a", "ab", "b", "abc", "12", "xyy", "trouble", "no trouble here", "ccc", "zzz"} {
+			for _, s := range []string{"", "a", "ab", "b", "abc", "12", "a12", "12b", "xyy", "xyyz", "trouble", "no trouble here", "ccc", "cccc", "zzz"} {
 				bits := "-"
 				if len(pats) > 0 {
 					bits = ""
 					for _, p := range pats {
-						ok := regexp.MustCompile(p.Pattern).MatchString(s) != p.Inverted()
+						// a pattern is about the whole value (RFC 7950 §9.4.5)
+						ok := regexp.MustCompile("^(?:"+p.Pattern+")$").MatchString(s) != p.Inverted()
 						if ok {
 							bits += "1"
 						} else {
@@ -537,6 +539,12 @@ const c05memberModule = `module mm { namespace "urn:mm"; prefix mm; revision 202
  leaf u { type union { type int8; type enumeration { enum x; enum y; } } }
  leaf-list bl { type bits { bit b0 { position 0; } bit b1 { position 1; } } }
  leaf-list el { type enumeration { enum one; enum two; } }
+ leaf ur { type union { type int8 { range "1..5"; } type string { length "2..3"; pattern "[a-z]*"; } } }
+ leaf rt { type int8 { range "1..5"; } } leaf lr { type leafref { path "/rt"; } }
+ leaf-list rtl { type string { length "2..3"; } } leaf-list lrl { type leafref { path "/rtl"; } }
+ leaf bn { type binary { length "2..4"; } }
+ leaf de { type decimal64 { fraction-digits 2; } } leaf der { type decimal64 { fraction-digits 2; range "0..10"; } }
+ leaf-list il { type identityref { base base-a; } }
 }`
 
 // enum / bits / identityref / union: accepted ⇒ declared member
@@ -561,6 +569,16 @@ func c05membership(c *core.Ctx, rng *core.Rng) {
 		{"b", 9, `9`, true}, {"b", 2, `2`, false}, {"b", -1, `-1`, false}, {"b", 1.5, `1.5`, false}, {"b", 1 << 40, `1099511627776`, false},
 		{"i", "d1", `"d1"`, true}, {"i", "d2", `"d2"`, true}, {"i", "mm:d2", `"mm:d2"`, true}, {"i", "other", `"other"`, false}, {"i", "nope", `"nope"`, false}, {"i", "", `""`, false},
 		{"u", 5, `5`, true}, {"u", "x", `"x"`, true}, {"u", 300, `300`, false}, {"u", "z", `"z"`, false},
+		// the restrictions of union members, of the leaf a leafref points to, of binary; not-a-number in a decimal64
+		{"ur", 3, `3`, true}, {"ur", 9, `9`, false}, {"ur", 0, `0`, false}, {"ur", "ab", `"ab"`, true}, {"ur", "abcd", `"abcd"`, false}, {"ur", "AB", `"AB"`, false}, {"ur", "a", `"a"`, false},
+		{"lr", 3, `3`, true}, {"lr", 9, `9`, false}, {"lr", 0, `0`, false}, {"lrl", []string{"ab", "abc"}, `["ab","abc"]`, true}, {"lrl", []string{"ab", "abcd"}, `["ab","abcd"]`, false}, {"lrl", []string{"a", "ab"}, `["a","ab"]`, false},
+		{"bn", "aGk=", `"aGk="`, true}, {"bn", "aGVsbG8gd29ybGQ=", `"aGVsbG8gd29ybGQ="`, false}, {"bn", "AA==", `"AA=="`, false},
+		{"de", "1.5", `1.5`, true}, {"de", "NaN", `"NaN"`, false}, {"de", "Inf", `"Inf"`, false}, {"de", "-Inf", `"-Inf"`, false}, {"de", math.NaN(), `"NaN"`, false}, {"de", math.Inf(1), `"+Inf"`, false},
+		{"der", "NaN", `"NaN"`, false}, {"der", math.NaN(), `"NaN"`, false}, {"der", 5, `5`, true}, {"der", 11, `11`, false},
+		// one element of a leaf-list that is not a member, in every position
+		{"el", []string{"one", "two"}, `["one","two"]`, true}, {"el", []string{"mauve", "one"}, `["mauve","one"]`, false}, {"el", []string{"one", "mauve"}, `["one","mauve"]`, false}, {"el", []string{"one", "mauve", "two"}, `["one","mauve","two"]`, false},
+		{"bl", []string{"b0", "b0 b1"}, `["b0","b0 b1"]`, true}, {"bl", []string{"zz", "b0"}, `["zz","b0"]`, false}, {"bl", []string{"b0", "zz", "b1"}, `["b0","zz","b1"]`, false},
+		{"il", []string{"d1", "d2"}, `["d1","d2"]`, true}, {"il", []string{"other", "d1"}, `["other","d1"]`, false}, {"il", []string{"d1", "nope", "d2"}, `["d1","nope","d2"]`, false},
 	}
 	for _, t := range tcs {
 		for _, path := range []string{"SetValue", "UpsertFrom(JSON)"} {
